@@ -200,6 +200,23 @@ fn is_special_key(key: &str) -> bool {
         || key == "node_ref"
 }
 
+/// The HTML attribute that `name=...` sets through the builder path. On HTML elements an
+/// identifier is the name of a typed attribute method, and a few of those stand for a name
+/// with dashes (tachys `html/attribute/key.rs`); custom elements and SVG elements take the
+/// name as written.
+fn html_attribute_name(el_name: &str, attr_name: &str) -> String {
+    let typed = !is_custom_element(el_name) && !is_svg_element(el_name);
+    if typed
+        && (attr_name == "http_equiv"
+            || attr_name == "accept_charset"
+            || attr_name.starts_with("aria_"))
+    {
+        attr_name.replace('_', "-")
+    } else {
+        attr_name.to_string()
+    }
+}
+
 /// Whether text children of this element are HTML-escaped. Must agree with what tachys
 /// does for the element: `ElementType::ESCAPE_CHILDREN`, and `<textarea>`, whose content
 /// is escaped as a whole.
@@ -389,6 +406,11 @@ fn inert_element_to_tokens(
                                 // trim r# from raw identifiers like r#as
                                 let attr_name =
                                     attr_name.trim_start_matches("r#");
+                                // `http_equiv`, `accept_charset`, `aria_label`, ...: the
+                                // builder method of that name sets `http-equiv` etc.
+                                let attr_name =
+                                    html_attribute_name(&el_name, attr_name);
+                                let attr_name = attr_name.as_str();
                                 if attr_name != "class" {
                                     html.push(' ');
                                     html.push_str(attr_name);
